@@ -114,6 +114,8 @@ structure Cfg where
   respTimeout : Bool := false       -- RetryClient.ResponseTimeout ≠ 0
   always : Bool := false            -- WithAlwaysResubscribe
   connectTimeout : Bool := true     -- WithTimeout ≠ 0 (needed for "CONNACK never sent")
+  deafDialer : Bool := false        -- the Dialer ignores its context (e.g. `NoContextDialer`): a dial in flight is not
+                                    -- interrupted by the cancellation of the Connect context either
   deriving Repr
 
 structure World where
@@ -442,13 +444,26 @@ def step (w : World) : Ev → World
     if w.phase ≠ .idle then w
     -- with a context that is already done the (context-aware) dialer fails at once and the loop's
     -- select on ctx.Done() returns: one DialContext call, no connection, Connect returns the error
-    else if w.ctxCancelled then { w with phase := .exited, dials := w.dials + 1, connectErr := true }
+    else if w.ctxCancelled then
+      -- … unless the dialer does not look at its context: then the dial goes on (its result is acted upon, see `.dialOk`)
+      if w.cfg.deafDialer then { w with phase := .dialGate, dials := w.dials + 1, connectErr := true }
+      else { w with phase := .exited, dials := w.dials + 1, connectErr := true }
     else { w with phase := .dialGate, dials := w.dials + 1 }
   | .app r =>
     if w.stopped then { w with rejected := w.rejected + 1 }
     else progress (pushTask { w with accepted := w.accepted ++ [r] } (.req r))
   | .dialOk idStart =>
     if w.phase ≠ .dialGate then w
+    else if w.ctxCancelled ∧ w.connectReturned.isNone then
+      -- (only with a dialer that ignores its context) the transport arrives after the Connect context was cancelled:
+      -- SetClient, CONNECT is written, BaseClient.Connect returns the context's error at once, the loop closes the
+      -- client and leaves through its select on ctx.Done()
+      let k := w.conns.length
+      let c : Conn := { ctr := idStart, handler := w.handler, pkts := [(.connect, .sent .ok)], alive := false }
+      let idleConnected := w.goroutine ∧ w.gConnected ∧ ¬ w.stuck
+      progress { w with conns := w.conns ++ [c], cli := some k, connReady := true, goroutine := true,
+                        gConnected := if idleConnected then false else w.gConnected,
+                        phase := .exited }
     else
       let k := w.conns.length
       -- SetClient (retryclient.go:263-292) then RetryClient.Connect (:398-421): handler installed, CONNECT written
@@ -461,6 +476,8 @@ def step (w : World) : Ev → World
   | .dialFail =>
     if w.phase ≠ .dialGate then w
     else if w.stopped then { w with phase := .exited }
+    -- the dial of a cancelled first Connect fails (deaf dialer): the select on ctx.Done() returns, no back-off
+    else if w.ctxCancelled ∧ w.connectReturned.isNone then { w with phase := .exited }
     else { w with phase := .backoff, waits := w.waits ++ [w.waitExp], waitExp := w.waitExp + 1 }
   | .waitElapsed =>
     if w.phase = .backoff then { w with phase := .dialGate, dials := w.dials + 1 } else w
@@ -472,7 +489,10 @@ def step (w : World) : Ev → World
       match w.phase with
       | .idle => w                                            -- Connect not called yet: see `.start`
       | .backoff => { w with phase := .exited, connectErr := true }      -- select: `case <-ctx.Done(): return`
-      | .dialGate => { w with phase := .exited, connectErr := true }     -- DialContext returns ctx.Err(); then the same select
+      | .dialGate =>
+        -- DialContext returns ctx.Err(), then the same select; a dialer that ignores its context goes on dialling
+        -- (ReconnectClient.Connect itself returns the context's error at once)
+        if w.cfg.deafDialer then { w with connectErr := true } else { w with phase := .exited, connectErr := true }
       | .connackGate k =>
         -- BaseClient.Connect returns the context's error; the loop closes the client and leaves through the select
         progress { kill { w with connReady := true } k with phase := .exited, connectErr := true }
